@@ -78,6 +78,26 @@ def build(rng, facts, name):
             for r in both: b.kclear(r)
         b.emit("kobs " + other, ("same", jo))
         if exact: b.emit("kstats " + other)
+    # the message ToProto hands out is a value: it does not follow the sketch, and editing it does not touch the sketch
+    if rng.random() < 0.5 and b.vals["k"] and not getattr(b, "huge", False):
+        b.emit("ktoproto PV k", "ok"); jp = b.emit("kpobs PV"); olds = [v for v, _ in b.vals["k"]]
+        if rng.random() < 0.5:
+            for r in ("k", "t"): b.kclear(r)
+        for v in [rng.choice(olds) for _ in range(rng.choice([1, 3, 8]))] + rand_values(rng, 2, -2, 2):
+            w = rng.choice(wpool)
+            for r in ("k", "t"): b.kadd(r, v, w)
+        b.emit("kpobs PV", ("same", jp))
+        b.emit("ktoproto PW k", "ok"); j0 = b.emit("kobs k"); jf = b.emit("kforeach k 0"); b.emit("kpscale PW %s" % f2h(rng.choice([2.0, 0.5, 0.0])), "ok")
+        b.emit("kobs k", ("same", j0)); b.emit("kforeach k 0", ("same", jf)); jt = b.emit("kobs t"); b.emit("kobs k", ("same", jt))
+    # a paginated store copied when its buffer of unit entries is exactly full (or not), then the original is cleared and refilled: the copy keeps its content
+    if rng.random() < 0.35:
+        m = rng.choice([1, 2, 4, 8, 16, 32, 64, 5, 33]); b.knew("fb", spec, "pag", "pag", exact)
+        for v in rand_values(rng, m, -2, 2, signs=(1,), zeros=0): b.kadd("fb", v)
+        b.kcopy("fc", "fb"); jc = b.emit("kobs fc"); jb = b.emit("kobs fb")
+        if rng.random() < 0.5:
+            b.kclear("fb"); b.kadd("fb", 1234.5); b.kadd("fb", 0.0123); b.emit("kobs fc", ("same", jc))
+        else:
+            b.kclear("fc"); b.kadd("fc", 1234.5); b.kadd("fc", 0.0123); b.emit("kobs fb", ("same", jb))
     # copy taken right after a Clear (retained, cleared memory must not be shared): write to both sides in the ranges used before
     if rng.random() < 0.6 and b.vals["k"]:
         olds = [v for v, _ in b.vals["k"]][:12]
